@@ -3,6 +3,7 @@
 mod ae;
 mod clock;
 mod crdt;
+mod ks;
 mod place;
 mod recov;
 mod repl;
@@ -53,6 +54,7 @@ fn main() {
         "ae" => ae::main(rest),
         "place" => place::main(rest),
         "resp" => resp::main(rest),
+        "ks" => ks::main(rest),
         m => {
             eprintln!("unknown module {m}");
             2
